@@ -30,6 +30,20 @@ template<unsigned N> int vec_finite (const std::vector<std::string>& t, size_t a
 // caller's fast-math flags decide for compile-time constants would answer wrongly here and nowhere else
 #include <limits>
 #include <cfloat>
+// several constants in ONE function, with nothing between the calls that writes memory: a declaration that lets the caller's
+// optimiser merge "equal" calls (attribute pure / const) would merge the calls on +0 and -0 where zeros are unsigned for it.
+// The negative zero is a bit pattern (no arithmetic of the caller is involved).  Entry i: 0 +0, 1 -0, 2 one, 3 -one, 4 +inf, 5 -inf
+template<typename T> struct NegZero;
+template<> struct NegZero<double> { static constexpr double v = __builtin_bit_cast (double, 0x8000000000000000ULL); };
+template<> struct NegZero<float> { static constexpr float v = __builtin_bit_cast (float, 0x80000000u); };
+#define KT(i, x) m |= (true_math::finite (x) ? 1u : 0u) << (2*(i)); m |= (true_math::signbit (x) ? 1u : 0u) << (2*(i)+1);
+template<typename T> __attribute__((noinline)) static unsigned ktab_fwd ()
+{ unsigned m = 0; KT(0, T(0.0)) KT(1, NegZero<T>::v) KT(2, T(1.0)) KT(3, T(-1.0)) KT(4, std::numeric_limits<T>::infinity()) KT(5, -std::numeric_limits<T>::infinity()) return m; }
+template<typename T> __attribute__((noinline)) static unsigned ktab_rev ()
+{ unsigned m = 0; KT(5, -std::numeric_limits<T>::infinity()) KT(4, std::numeric_limits<T>::infinity()) KT(3, T(-1.0)) KT(2, T(1.0)) KT(1, NegZero<T>::v) KT(0, T(0.0)) return m; }
+#undef KT
+template<typename T> static void ktab (unsigned k, std::ostringstream& o)
+{ unsigned m = (k >= 200) ? ktab_rev<T> () : ktab_fwd<T> (); unsigned i = k % 100; if (i > 5) throw std::runtime_error ("protocol:k"); o << " " << ((m >> (2*i)) & 1u) << " " << ((m >> (2*i+1)) & 1u); }
 template<typename T> static void konst (unsigned k, std::ostringstream& o)
 {
 #define KCASE(n, expr) case n: o << " " << (true_math::finite ((T)(expr)) ? 1 : 0) << " " << (true_math::signbit ((T)(expr)) ? 1 : 0); break;
@@ -94,8 +108,8 @@ int main ()
       else if (op == "tm.cvecf") { Vector<2, std::complex<float> > v; v[0] = std::complex<float> (rd32 (t[1]), rd32 (t[2])); v[1] = std::complex<float> (rd32 (t[3]), rd32 (t[4])); o << " " << (true_math::finite (v) ? 1 : 0); }
       else if (op == "tm.cvecld") { Vector<2, std::complex<long double> > v; v[0] = std::complex<long double> (rd80 (t[1]), rd80 (t[2])); v[1] = std::complex<long double> (rd80 (t[3]), rd80 (t[4])); o << " " << (true_math::finite (v) ? 1 : 0); }
       else if (op == "tm.cstokes") { Stokes< std::complex<double> > v; for (unsigned i=0;i<4;i++) v[i] = std::complex<double> (rd64 (t[1+2*i]), rd64 (t[2+2*i])); o << " " << (true_math::finite (v) ? 1 : 0); }
-      else if (op == "tm.kd") konst<double> ((unsigned) std::stoul (t[1]), o);
-      else if (op == "tm.kf") konst<float> ((unsigned) std::stoul (t[1]), o);
+      else if (op == "tm.kd") { unsigned k = (unsigned) std::stoul (t[1]); if (k >= 100) ktab<double> (k, o); else konst<double> (k, o); }
+      else if (op == "tm.kf") { unsigned k = (unsigned) std::stoul (t[1]); if (k >= 100) ktab<float> (k, o); else konst<float> (k, o); }
       else if (op == "tm.kld") konst<long double> ((unsigned) std::stoul (t[1]), o);
       else if (op == "tm.kest") konst_est<double> ((unsigned) std::stoul (t[1]), o);
       else if (op == "tm.kestf") konst_est<float> ((unsigned) std::stoul (t[1]), o);
